@@ -207,8 +207,8 @@ def run_pipeline(o, path, trace=False, canary=False, stop_on_fail=False):
         flags += ['--stop-on-fail']
     if o.unwind is not None:
         flags += ['--unwind', str(o.unwind), '--unwinding-assertions']
-    for u in o.unwindset:
-        flags += ['--unwindset', u]
+    if o.unwindset:
+        flags += ['--unwindset', ','.join(o.unwindset)]
     if o.unwindset and o.unwind is None:
         flags += ['--unwinding-assertions']
     if o.solver == 'kissat':
